@@ -211,6 +211,19 @@ def gen_synth(rng, consts, n):
     return cases, metas
 
 
+def drop_cyclic(run, cases, meta):
+    """Texts outside the kernel format can close a cycle in the parent relation (a 'parent' field that wraps to a pid of the
+    table); the C loop then never ends and the model runs out of fuel.  Such tables are outside the property (the kernel's
+    parent relation is acyclic): they are recognised with the model and left out of the stream."""
+    d = os.path.join(run.scratch, "pre-cyclic")
+    os.makedirs(d, exist_ok=True)
+    cp = os.path.join(d, "cases.txt")
+    open(cp, "w").write("".join(c + "\n" for c in cases))
+    mo = run.run_model(AREA, cp, os.path.join(d, "model.out"))
+    keep = [i for i in range(len(cases)) if mo[i] != "fault:fuel"]
+    return [cases[i] for i in keep], [meta[i] for i in keep], len(cases) - len(keep)
+
+
 def spec_line(cf, rf):
     if cf[0] != "filter" or len(cf) < 6 or cf[5] == "?" or len(rf) < 2 or rf[1] not in ("drop", "pass"):
         return None
@@ -418,6 +431,7 @@ def check(run):
     quick = run.tier == "quick"
     csynth, cchain = corpus_cases()
     cases, meta = gen_synth(run.rng, consts, 3000 if quick else 60000)
+    cases, meta, ncyclic = drop_cyclic(run, cases, meta)
     allcases = csynth + cases
     res = corr_stream(run, AREA, exe, allcases, spec_line=spec_line, stream="synthetic")
     nv = classify_synth(run, res, allcases, "synthetic")
@@ -461,7 +475,7 @@ def check(run):
                 "or distinct (chain, argument) pair",
         "samples": [allcases[i][:300] for i in range(0, len(allcases), max(1, len(allcases) // 3))][:3] + [c[:300] for c in allchains[:2]],
         "distribution": {"synthetic_cases": len(allcases), "synthetic_drops": sdrops, "synthetic_error_injected": sum(1 for m in meta if m["err"]),
-                         "synthetic_wild": sum(1 for m in meta if m["wild"]), "synthetic_empty_comm": sum(1 for m in meta if m["empty_comm"]),
+                         "synthetic_wild": sum(1 for m in meta if m["wild"]), "synthetic_cyclic_tables_left_out": ncyclic, "synthetic_empty_comm": sum(1 for m in meta if m["empty_comm"]),
                          "chains": len(allchains), "chain_depths": depth_hist, "chain_argument_pairs": pairs, "chain_drops": drops,
                          "orphan_chains": sum(1 for m in cmeta if m["mode"] == "orphan"), "chains_with_empty_name": sum(1 for m in cmeta if m["empty_name"]),
                          "kernel_stat_entries_checked_against_render_stat": sum(1 for r in cres if "truth" in r for _ in r["truth"].split(";")),
